@@ -100,6 +100,20 @@ def run_replay_file(c, binp, path):
         print("cell    :", json.dumps(obj["cell"]))
         print("real    :", json.dumps(res))
         judge_rpc(c, obj["cell"], res)
+    elif kind == "flip" and obj.get("case"):
+        inp = os.path.join(c.work, "one_in.ndjson")
+        outp = os.path.join(c.work, "one_out.json")
+        write_ndjson(inp, [obj["case"]])
+        c.sh([binp, "flips", inp, outp])
+        fr = json.load(open(outp))
+        print("every bit of %s of entry %d (honest segment of %d entries): %d flips, %d violations" % (
+            obj["op"], obj["a"], obj["n"], fr["flips"], len(fr["pv"])))
+        for pv in fr["pv"]:
+            c.violation("%s:bit" % pv["key"], pv["what"] + " after flipping bit %d" % pv["bit"], obj)
+    elif kind in ("trace", "record"):
+        c.seed = int(json.load(open(path)).get("seed", c.seed))
+        print("re-recording the executions of seed %d and validating them against the trace specifications" % c.seed)
+        trace_step(c, binp)
     else:
         c.fail_tool("replay file of unknown kind %r" % kind)
 
@@ -116,6 +130,56 @@ def judge_rpc(c, cell, res):
                     "a %s value obtained from an RPC message does not survive to_rpc/try_from_rpc (differs in %s); features %s" % (k, comp, cell["f"]),
                     {"kind": "rpc", "cell": cell, "real": res})
     return "x" not in cell or res["got"] == cell["x"]
+
+
+def trace_step(c, binp):
+    """recorded executions -> trace validation (also used by --replay for trace counterexamples)"""
+    ev = os.path.join(c.work, "trace_tamper.ndjson")
+    rev = os.path.join(c.work, "trace_rpc.ndjson")
+    resj = os.path.join(c.work, "record.json")
+    rc, so = c.sh([binp, "record", ev, rev, resj], timeout=3000)
+    if rc != 0:
+        c.fail_tool("record harness failed rc=%s %s" % (rc, (so or "")[-500:]))
+    rec = json.load(open(resj))
+    for pv in rec["pv"]:
+        c.violation(pv["key"], pv["what"] + " (record run %s, seed %d)" % (pv.get("run"), c.seed), {"kind": "record", "seed": c.seed, "pv": pv})
+    missing_ops = [o for o in ALL_OPS if not rec["ops"].get(o)]
+    if missing_ops:
+        c.fail_tool("vacuous traces: tampers never recorded: %s" % missing_ops)
+    traces = 0
+    r = c.tlc(SD, "Trace_SignedSegment", cfg=cfg(c, "trace.cfg", TRACE_TMPL), mode="trace", env={"TRACE": ev}, timeout=3000)
+    if r.violated:
+        for inv in r.violated:
+            c.violation("trace:%s" % inv, "invariant %s violated on a recorded execution of the real validation code (seed %d); TLC output %s" % (inv, c.seed, r.out_path),
+                        {"kind": "trace", "trace": ev, "tlc_out": r.out_path})
+    elif r.postcondition_failed or not r.ok:
+        txt = open(r.out_path, errors="replace").read()
+        um = [l for l in txt.splitlines() if "UNMATCHED" in l or "TRACE-REJECTED" in l]
+        c.drift("tamper trace not accepted by Trace_SignedSegment: %s" % " ".join(um)[:400])
+    else:
+        traces += rec["runs"]
+    r = c.tlc(SD, "Trace_RpcConv", cfg="Trace_RpcConv.cfg", mode="trace", env={"TRACE": rev}, timeout=3000)
+    txt = open(r.out_path, errors="replace").read()
+    skipped = [l for l in txt.splitlines() if l.startswith('<<"SKIPPED"')]
+    for l in skipped[:20]:
+        c.drift("recorded RPC conversion differs from the RpcConv table: %s" % l[:300])
+    c.cov["drift"] += max(0, len(skipped) - 20)
+    if r.violated:
+        # name the offending lines: re-evaluate the P-monitors on the recorded results
+        for o in read_ndjson(rev):
+            judge_rpc(c, {"k": o["k"], "f": o["f"]}, o)
+        for inv in r.violated:
+            c.violation("trace:rpc:%s" % inv, "invariant %s violated on recorded RPC conversions (seed %d); TLC output %s" % (inv, c.seed, r.out_path),
+                        {"kind": "trace", "trace": rev, "tlc_out": r.out_path})
+    elif r.postcondition_failed or not r.ok:
+        c.drift("RPC trace not accepted by Trace_RpcConv (see %s)" % r.out_path)
+    else:
+        traces += rec["rpc_msgs"]
+    c.cov["traces_validated_against_impl"] = traces
+    c.cov["evaluations"] += 3 * rec["validations"] + rec["rpc_msgs"]
+    c.cov["distinct_nontrivial"] += rec["nontrivial_runs"]
+    c.cov["trace_stats"] = {k: rec[k] for k in ("runs", "events", "validations", "nontrivial_runs", "ops", "rpc_msgs", "rpc_ok")}
+    c.sample({"trace_event": "reset/tamper/validate per run, see spec/SignedSegment/Trace_SignedSegment.tla; one line per RPC conversion, see Trace_RpcConv.tla"})
 
 
 def run(c):
@@ -220,7 +284,8 @@ def run(c):
     fr = json.load(open(foutp))
     for pv in fr["pv"]:
         c.violation("%s:bit" % pv["key"], pv["what"] + " after flipping bit %d (%s of entry %d, honest segment of %d entries)" % (pv["bit"], pv["op"], pv["a"], pv["n"]),
-                    {"kind": "flip", "n": pv["n"], "op": pv["op"], "a": pv["a"], "bit": pv["bit"], "real": pv["real"]})
+                    {"kind": "flip", "n": pv["n"], "op": pv["op"], "a": pv["a"], "bit": pv["bit"], "real": pv["real"],
+                     "case": next((h for h in fl if h["n"] == pv["n"] and h["h"][0]["op"] == pv["op"] and h["h"][0]["a"] == pv["a"]), None)})
     want = sum(1 for h in fl if h["n"] <= 3 or thorough)
     honest_failed = any(pv["key"].startswith("RejectsValid:honest-construction") for pv in fr["pv"])
     if not honest_failed and (fr["exhaustive_cases"] != want or fr["flips"] < 5000):
@@ -261,49 +326,4 @@ def run(c):
     c.sample({"rpc_cell": cells[len(cells) // 3]})
 
     # ---- 5. recorded executions -> trace validation -----------------------------------------------
-    ev = os.path.join(c.work, "trace_tamper.ndjson")
-    rev = os.path.join(c.work, "trace_rpc.ndjson")
-    resj = os.path.join(c.work, "record.json")
-    rc, so = c.sh([binp, "record", ev, rev, resj], timeout=3000)
-    if rc != 0:
-        c.fail_tool("record harness failed rc=%s %s" % (rc, (so or "")[-500:]))
-    rec = json.load(open(resj))
-    for pv in rec["pv"]:
-        c.violation(pv["key"], pv["what"] + " (record run %s, seed %d)" % (pv.get("run"), c.seed), {"kind": "record", "seed": c.seed, "pv": pv})
-    missing_ops = [o for o in ALL_OPS if not rec["ops"].get(o)]
-    if missing_ops:
-        c.fail_tool("vacuous traces: tampers never recorded: %s" % missing_ops)
-    traces = 0
-    r = c.tlc(SD, "Trace_SignedSegment", cfg=cfg(c, "trace.cfg", TRACE_TMPL), mode="trace", env={"TRACE": ev}, timeout=3000)
-    if r.violated:
-        for inv in r.violated:
-            c.violation("trace:%s" % inv, "invariant %s violated on a recorded execution of the real validation code (seed %d); TLC output %s" % (inv, c.seed, r.out_path),
-                        {"kind": "trace", "trace": ev, "tlc_out": r.out_path})
-    elif r.postcondition_failed or not r.ok:
-        txt = open(r.out_path, errors="replace").read()
-        um = [l for l in txt.splitlines() if "UNMATCHED" in l or "TRACE-REJECTED" in l]
-        c.drift("tamper trace not accepted by Trace_SignedSegment: %s" % " ".join(um)[:400])
-    else:
-        traces += rec["runs"]
-    r = c.tlc(SD, "Trace_RpcConv", cfg="Trace_RpcConv.cfg", mode="trace", env={"TRACE": rev}, timeout=3000)
-    txt = open(r.out_path, errors="replace").read()
-    skipped = [l for l in txt.splitlines() if l.startswith('<<"SKIPPED"')]
-    for l in skipped[:20]:
-        c.drift("recorded RPC conversion differs from the RpcConv table: %s" % l[:300])
-    c.cov["drift"] += max(0, len(skipped) - 20)
-    if r.violated:
-        # name the offending lines: re-evaluate the P-monitors on the recorded results
-        for o in read_ndjson(rev):
-            judge_rpc(c, {"k": o["k"], "f": o["f"]}, o)
-        for inv in r.violated:
-            c.violation("trace:rpc:%s" % inv, "invariant %s violated on recorded RPC conversions (seed %d); TLC output %s" % (inv, c.seed, r.out_path),
-                        {"kind": "trace", "trace": rev, "tlc_out": r.out_path})
-    elif r.postcondition_failed or not r.ok:
-        c.drift("RPC trace not accepted by Trace_RpcConv (see %s)" % r.out_path)
-    else:
-        traces += rec["rpc_msgs"]
-    c.cov["traces_validated_against_impl"] = traces
-    c.cov["evaluations"] += 3 * rec["validations"] + rec["rpc_msgs"]
-    c.cov["distinct_nontrivial"] += rec["nontrivial_runs"]
-    c.cov["trace_stats"] = {k: rec[k] for k in ("runs", "events", "validations", "nontrivial_runs", "ops", "rpc_msgs", "rpc_ok")}
-    c.sample({"trace_event": "reset/tamper/validate per run, see spec/SignedSegment/Trace_SignedSegment.tla; one line per RPC conversion, see Trace_RpcConv.tla"})
+    trace_step(c, binp)
